@@ -159,7 +159,7 @@ func applyFault(rt *rapid.T, g *gen.GraphBP, kind string) {
 }
 
 func genDoc(rt *rapid.T) (*gen.GraphBP, []string) {
-	g := gen.Graph(gen.GraphOpts{MaxPeople: 6, MaxFamilies: 3, WildDates: true, UIDs: true, Sources: true, Big: 60}).Draw(rt, "doc")
+	g := gen.Graph(gen.GraphOpts{MaxPeople: 6, MaxFamilies: 3, WildDates: true, UIDs: true, Sources: true, Big: 120, BigLo: 25, BigHi: 50}).Draw(rt, "doc")
 	n := rapid.IntRange(0, harness.Pick(3, 5)).Draw(rt, "nfaults")
 	var faults []string
 	for i := 0; i < n; i++ {
